@@ -7,6 +7,7 @@
 #include <cstddef>
 #include <cstdint>
 #include <cstdlib>
+#include <type_traits>
 #include <utility>
 namespace rlbox {
 template<int Tag, bool Grant, bool Internal> struct model32_traits {};
@@ -27,7 +28,8 @@ public:
 
 protected:
   using Self = rlbox_model32_sandbox<Tag, Grant, Internal>;
-  void impl_create_sandbox();
+  // the Grant variant reports creation success as a bool, the plain one returns void (both arms of create_sandbox)
+  std::conditional_t<Grant, bool, void> impl_create_sandbox();
   void impl_destroy_sandbox();
   template<typename T> void* impl_get_unsandboxed_pointer(T_PointerType p) const;
   template<typename T> T_PointerType impl_get_sandboxed_pointer(const void* p) const;
